@@ -525,7 +525,8 @@ class Sim:
         rec = {"req": cur["req"], "result": out["result"], "exc": out.get("exc"),
                "role": cur.get("role"), "timeout": cur["timeout"], "polls": cur["polls"],
                "sleeps": cur["sleeps"], "t": round(t, 6), "late": p.late,
-               "built": out.get("built"), "faulted": sorted(cur["faulted"])}
+               "built": out.get("built"), "faulted": sorted(cur["faulted"]),
+               "interrupted": bool(cur.get("interrupted"))}
         p.outcomes.append(rec)
         self.log.add(round(t, 6), p.idx, "outcome", out["result"], out.get("exc") or "",
                      out.get("digest") or "", cur.get("role") or "")
@@ -557,8 +558,10 @@ class Sim:
         failing = cur["faulted"] & {"codegen-fail", "cc-fail", "ld-fail"}
         if failing and out["result"] != "raised":
             self.violate("H-FAIL", f"process {p.idx}: {sorted(failing)} injected but the request returned")
-        # I-GLOBAL (not asserted for the process that was interrupted or hit by a disk error)
-        exempt = cur.get("interrupted") or (cur["faulted"] & set(DISK_FAULTS))
+        # I-GLOBAL.  An interrupted build is a failed build in a process that lives on, so it is
+        # asserted there as well; not asserted for a process hit by a disk error (outside the
+        # failures the property names)
+        exempt = bool(cur["faulted"] & set(DISK_FAULTS))
         if not out.get("handlers_same"):
             if exempt:
                 self.bump("probe_handlers_not_restored_after_disk_or_interrupt")
@@ -745,6 +748,17 @@ class Sim:
                                           f"(builders {gh['builders']})")
                 if want and len(set(gh["compilers"])) > 1:
                     self.violate("H-ONE", f"module {m} compiled by several processes {gh['compilers']}")
+        # H-SERVE: a request that was not itself hit by a fault, on a module without disk errors,
+        # returns or times out honestly (H-TO) - whatever failed or died before or beside it
+        for p in self.procs:
+            for o in p.outcomes:
+                if o["result"] != "raised" or o.get("exc") == "TimeoutError" or o.get("faulted"):
+                    continue
+                gh = self.ghost.get(self.golden[o["req"]]["module"], {})
+                if gh.get("disk_fault") or o.get("interrupted"):
+                    continue
+                self.violate("H-SERVE", f"process {p.idx} request {o['req']} (role {o.get('role')}) was not hit by "
+                                        f"any fault but raised {o.get('exc')}: {o.get('msg')}")
         # every request ended somehow
         for p in self.procs:
             if len(p.outcomes) < len(p.requests) and p.state != "killed":
